@@ -66,7 +66,8 @@ def _make_app(cfg, log):
 
         def headers_received(self, start_line, headers):
             log.append([G.Tag("H"), self.idx])
-            self.conn.set_close_callback(lambda: log.append([G.Tag("CB"), self.idx]))
+            if cfg.get("cb", True):
+                self.conn.set_close_callback(lambda: log.append([G.Tag("CB"), self.idx]))
             h = cfg["h"]
             if h == "sync":
                 return None
@@ -132,6 +133,65 @@ def _make_app(cfg, log):
     return App()
 
 
+def _make_callable_server(cfg, log, HTTPServer, kw):
+    """HTTPServer(plain callable): the server's own _CallableAdapter is the message delegate (it never registers a
+    close callback); a recording proxy sits between the connection and the adapter."""
+    from tornado import httputil
+    state = {"pending": None, "n": 0}
+
+    def respond(request, idx):
+        log.append([G.Tag("R"), idx])
+        request.connection.write_headers(httputil.ResponseStartLine("HTTP/1.1", 200, "OK"),
+                                         httputil.HTTPHeaders({"Content-Length": "2"}), b"ok")
+        request.connection.finish()
+
+    def app(request):
+        idx = state["n"] - 1
+        if cfg["f"] == "sync":
+            respond(request, idx)
+        elif cfg["f"] == "async":
+            state["pending"] = lambda: respond(request, idx)
+        else:
+            raise _Boom()
+
+    class Proxy(httputil.HTTPMessageDelegate):
+        def __init__(self, inner, idx):
+            self.inner, self.idx = inner, idx
+
+        def headers_received(self, start_line, headers):
+            log.append([G.Tag("H"), self.idx])
+            return self.inner.headers_received(start_line, headers)
+
+        def data_received(self, chunk):
+            log.append([G.Tag("D"), self.idx, bytes(chunk)])
+            return self.inner.data_received(chunk)
+
+        def finish(self):
+            log.append([G.Tag("F"), self.idx])
+            return self.inner.finish()
+
+        def on_connection_close(self):
+            log.append([G.Tag("C"), self.idx])
+            return self.inner.on_connection_close()
+
+    class Srv(HTTPServer):
+        def start_request(self, server_conn, request_conn):
+            d = HTTPServer.start_request(self, server_conn, request_conn)
+            state["n"] += 1
+            return Proxy(d, state["n"] - 1)
+
+        def on_close(self, server_conn):
+            log.append([G.Tag("X")])
+            HTTPServer.on_close(self, server_conn)
+
+    def act():
+        p, state["pending"] = state["pending"], None
+        if p is not None:
+            p()
+
+    return Srv(app, **kw), act
+
+
 def header_facts(data, maxbody):
     """What _read_message learns from one header block, computed with Tornado's own functions in the order
     _read_message uses them (_parse_headers, parse_request_start_line, _can_keep_alive, Expect, _read_body)."""
@@ -183,17 +243,21 @@ def _run(case):
 
     async def scenario(loop):
         log = []
-        app = _make_app(cfg, log)
         kw = dict(chunk_size=cfg["chunk"], max_header_size=cfg["maxh"], max_body_size=cfg["maxbody"])
         if cfg["bt"]:
             kw["body_timeout"] = BT
+        if cfg.get("callable"):
+            srv, act = _make_callable_server(cfg, log, HTTPServer, kw)
+        else:
+            app = _make_app(cfg, log)
+            act = app.act
 
-        class Srv(HTTPServer):
-            def on_close(self, server_conn):
-                log.append([G.Tag("X")])
-                HTTPServer.on_close(self, server_conn)
+            class Srv(HTTPServer):
+                def on_close(self, server_conn):
+                    log.append([G.Tag("X")])
+                    HTTPServer.on_close(self, server_conn)
 
-        srv = Srv(app, **kw)
+            srv = Srv(app, **kw)
         s = FakeIOStream(read_chunk_size=cfg["chunk"])
         srv.handle_stream(s, ("1.2.3.4", 5))
         await settle(6)
@@ -205,7 +269,7 @@ def _run(case):
             elif k == "E":
                 s.feed(EOF)
             elif k == "A":
-                app.act()
+                act()
             elif k == "T":
                 await asyncio.sleep(BT)
             elif k == "S":
@@ -274,8 +338,9 @@ def _gevent(ev):
 
 def coq_input(case):
     cfg = case["cfg"]
-    c = "(mkCfg %s %s %s %s %s %s %s)" % (H_COQ[cfg["h"]], D_COQ[cfg["d"]], F_COQ[cfg["f"]], G.gbool(cfg["bt"]),
-                                          G.gn(cfg["chunk"]), G.gn(cfg["maxh"]), G.gn(cfg["maxbody"]))
+    c = "(mkCfg %s %s %s %s %s %s %s %s)" % (H_COQ[cfg["h"]], D_COQ[cfg["d"]], F_COQ[cfg["f"]], G.gbool(cfg["bt"]),
+                                             G.gn(cfg["chunk"]), G.gn(cfg["maxh"]), G.gn(cfg["maxbody"]),
+                                             G.gbool(cfg.get("cb", True)))
     tbl = G.glist(["(%s, %s)" % (G.gbytes(k.encode("latin-1")), _gfacts(f)) for k, f in _facts(case)], "(list N * facts)")
     bodies = G.glist([G.goption(b, lambda x: G.gbytes(x.encode("latin-1")), "(list N)") for b in case.get("bodies", [])],
                      "(option (list N))")
@@ -361,8 +426,12 @@ def L(b):
     return b.decode("latin-1")
 
 
-def mkcfg(h="sync", d="sync", f="sync", bt=False, chunk=65536, maxh=65536, maxbody=1000):
-    return dict(h=h, d=d, f=f, bt=bt, chunk=chunk, maxh=maxh, maxbody=maxbody)
+def mkcfg(h="sync", d="sync", f="sync", bt=False, chunk=65536, maxh=65536, maxbody=1000, cb=True, callable=False):
+    """cb: the delegate registers connection.set_close_callback; callable: HTTPServer(plain callable) (implies
+    sync headers/data handling by the server's own adapter and no close callback)"""
+    if callable:
+        h, d, cb = "sync", "sync", False
+    return dict(h=h, d=d, f=f, bt=bt, chunk=chunk, maxh=maxh, maxbody=maxbody, cb=cb, callable=callable)
 
 
 def mkreq(kind, body, rng):
@@ -373,17 +442,17 @@ def mkreq(kind, body, rng):
     if kind == "get_lf":
         return b"GET / HTTP/1.1\nHost: x\n\n", b""
     if kind == "fixed":
-        return b"POST / HTTP/1.1\r\nContent-Length: %d\r\n\r\n" % n + body, body
+        return b"POST / HTTP/1.1\r\nHost: x\r\nContent-Length: %d\r\n\r\n" % n + body, body
     if kind == "expect":
-        return b"POST / HTTP/1.1\r\nExpect: 100-continue\r\nContent-Length: %d\r\n\r\n" % n + body, body
+        return b"POST / HTTP/1.1\r\nHost: x\r\nExpect: 100-continue\r\nContent-Length: %d\r\n\r\n" % n + body, body
     if kind == "close":
-        return b"POST / HTTP/1.1\r\nConnection: close\r\nContent-Length: %d\r\n\r\n" % n + body, body
+        return b"POST / HTTP/1.1\r\nHost: x\r\nConnection: close\r\nContent-Length: %d\r\n\r\n" % n + body, body
     if kind == "http10":
         return b"POST / HTTP/1.0\r\nContent-Length: %d\r\n\r\n" % n + body, body
     if kind == "http10ka":
         return b"POST / HTTP/1.0\r\nConnection: keep-alive\r\nContent-Length: %d\r\n\r\n" % n + body, body
     if kind in ("chunked", "chunk_badterm", "chunk_badsize", "chunk_badlast", "chunk_longsize", "chunk_upper"):
-        out = b"POST / HTTP/1.1\r\nTransfer-Encoding: chunked\r\n\r\n"
+        out = b"POST / HTTP/1.1\r\nHost: x\r\nTransfer-Encoding: chunked\r\n\r\n"
         i = 0
         pieces = []
         while i < n:
@@ -410,13 +479,13 @@ def mkreq(kind, body, rng):
     if kind == "bad_header":
         return b"GET / HTTP/1.1\r\nbad header\r\n\r\n", None
     if kind == "cl_te":
-        return b"POST / HTTP/1.1\r\nContent-Length: %d\r\nTransfer-Encoding: chunked\r\n\r\n" % n + body, None
+        return b"POST / HTTP/1.1\r\nHost: x\r\nContent-Length: %d\r\nTransfer-Encoding: chunked\r\n\r\n" % n + body, None
     if kind == "bad_cl":
-        return b"POST / HTTP/1.1\r\nContent-Length: x\r\n\r\n" + body, None
+        return b"POST / HTTP/1.1\r\nHost: x\r\nContent-Length: x\r\n\r\n" + body, None
     if kind == "dup_cl":
-        return b"POST / HTTP/1.1\r\nContent-Length: %d\r\nContent-Length: %d\r\n\r\n" % (n, n) + body, body
+        return b"POST / HTTP/1.1\r\nHost: x\r\nContent-Length: %d\r\nContent-Length: %d\r\n\r\n" % (n, n) + body, body
     if kind == "big_cl":
-        return b"POST / HTTP/1.1\r\nContent-Length: 99999999\r\n\r\n" + body, None
+        return b"POST / HTTP/1.1\r\nHost: x\r\nContent-Length: 99999999\r\n\r\n" + body, None
     raise AssertionError(kind)
 
 
@@ -480,7 +549,7 @@ def mkcase(cfg, evs, bodies):
 
 def corpus_cases():
     out = []
-    hdr = b"POST / HTTP/1.1\r\nContent-Length: 6\r\n\r\n"
+    hdr = b"POST / HTTP/1.1\r\nHost: x\r\nContent-Length: 6\r\n\r\n"
     # body timeout while an asynchronous data_received is pending and more body is buffered: before fix
     # bd9b133 the un-cancelled body reader called data_received again after on_connection_close
     out.append(mkcase(mkcfg(d="async", bt=True), [["F", L(hdr)], ["F", "ab"], ["F", "cdef"], ["T"], ["A"], ["A"]], [b"abcdef"]))
@@ -494,12 +563,19 @@ def corpus_cases():
     w = b"POST / HTTP/1.1\r\nTransfer-Encoding: chunked\r\n\r\n2\r\nabXX0\r\n\r\n"
     out.append(mkcase(mkcfg(), [["F", L(w)]], [b"ab"]))
     # client goes away while the application is still producing the response
-    out.append(mkcase(mkcfg(f="async"), [["F", L(b"GET / HTTP/1.1\r\n\r\n")], ["E"], ["A"]], [b""]))
+    out.append(mkcase(mkcfg(f="async"), [["F", L(b"GET / HTTP/1.1\r\nHost: x\r\n\r\n")], ["E"], ["A"]], [b""]))
     # early response from a streaming handler, then the rest of the body
     out.append(mkcase(mkcfg(d="respond"), [["F", L(hdr + b"ab")], ["F", "cdef"], ["E"]], [b"abcdef"]))
     # shutdown while the handler's Future is pending, then the handler continues
     out.append(mkcase(mkcfg(h="async"), [["F", L(hdr + b"abcdef")], ["S"], ["A"], ["A"]], [b"abcdef"]))
     out.append(mkcase(mkcfg(h="detach"), [["F", L(hdr + b"abcdef")], ["S"]], [b"abcdef"]))
+    # nobody registered a close callback and the connection closes while the response is pending:
+    # _finish_future must still be resolved so that the loop exits and close_all_connections completes
+    get = b"GET / HTTP/1.1\r\nHost: x\r\n\r\n"
+    out.append(mkcase(mkcfg(f="async", cb=False), [["F", L(get)], ["S"]], [b""]))
+    out.append(mkcase(mkcfg(f="async", cb=False), [["F", L(get)], ["E"], ["S"], ["A"]], [b""]))
+    out.append(mkcase(mkcfg(f="async", callable=True), [["F", L(get)], ["S"]], [b""]))
+    out.append(mkcase(mkcfg(f="async", callable=True), [["F", L(hdr + b"abcdef")], ["E"], ["S"]], [b"abcdef"]))
     return out
 
 
@@ -507,7 +583,9 @@ def rand_cfg(rng, bias=None):
     cfg = mkcfg(h=rng.choice(["sync"] * 4 + HMODES), d=rng.choice(["sync"] * 2 + ["async"] * 2 + DMODES),
                 f=rng.choice(["sync"] * 2 + ["async"] * 2 + FMODES), bt=rng.random() < 0.5,
                 chunk=rng.choice([1, 2, 3, 4, 8, 65536, 65536]), maxh=rng.choice([65536, 65536, 65536, 48]),
-                maxbody=rng.choice([1000, 1000, 4]))
+                maxbody=rng.choice([1000, 1000, 4]), cb=rng.random() < 0.6)
+    if rng.random() < 0.12:
+        cfg = mkcfg(f=cfg["f"], bt=cfg["bt"], chunk=cfg["chunk"], maxh=cfg["maxh"], maxbody=cfg["maxbody"], callable=True)
     if bias:
         cfg.update(bias)
     return cfg
@@ -517,15 +595,16 @@ def gen_cases(rng, tier):
     out = []
     quick = tier != "thorough"
     # (1) disconnect-point sweeps: every byte offset of a 1-2 request stream x disconnect kind x handler kind
-    handler_kinds = [dict(), dict(f="async"), dict(h="async", d="async"), dict(h="async", d="async", f="async"),
+    handler_kinds = [dict(), dict(f="async"), dict(f="async", cb=False), dict(f="async", callable=True), dict(h="async", d="async"), dict(h="async", d="async", f="async"),
                      dict(d="async", bt=True), dict(d="respond"), dict(h="asyncresp"), dict(h="respond"),
                      dict(d="raise"), dict(f="raise"), dict(h="raise"), dict(h="detach"), dict(d="async", chunk=2, bt=True),
                      dict(chunk=3), dict(h="async", d="async", f="async", chunk=1)]
     streams = [["fixed"], ["chunked"], ["fixed", "get"], ["chunked", "fixed"], ["expect", "close"], ["http10ka", "http10"]]
     if quick:
-        combos = [(s, hk) for s in streams[:4] for hk in handler_kinds[:5]]
+        combos = [(s, hk) for s in streams[:4] for hk in handler_kinds[:7]]
         rng.shuffle(combos)
         combos = combos[:7]
+        combos += [(["fixed", "get"], dict(f="async", cb=False)), (["get"], dict(f="async", callable=True))]
     else:
         combos = [(s, hk) for s in streams for hk in handler_kinds]
         rng.shuffle(combos)
@@ -562,6 +641,16 @@ def gen_cases(rng, tier):
         k = rng.randint(hdr_end + 1, len(wire))
         evs = [["F", L(wire[:k])]] + ([["F", L(wire[k:])]] if k < len(wire) else []) + [["A"]] * rng.randint(0, 2) + [["T"]] + [["A"]] * rng.randint(1, 6)
         out.append(mkcase(cfg, evs, [b]))
+    # (3b) response phase: the request is fully read, finish() delivered, the response still pending; then the
+    # peer goes away / the server shuts down / both, for delegates with and without a close callback
+    for kind in ("get", "fixed", "chunked", "http10ka"):
+        for hk in (dict(f="async", cb=False), dict(f="async", callable=True), dict(f="async"), dict(f="async", cb=False, d="async")):
+            for tail in (["E"], ["S"], ["E", "S"], ["S", "A"], ["E", "A", "S"], ["A", "E", "S"], ["T", "S"]):
+                wire, b = mkreq(kind, rbody(rng), rng)
+                evs = [["F", L(s)] for s in segment(wire, rng.choice(["one", "rand"]), rng)]
+                evs += [["A"]] * (3 if hk.get("d") == "async" else 0)
+                evs += [[t] for t in tail] + [["A"]]
+                out.append(mkcase(mkcfg(**hk), evs, [b]))
     # (4) small-scope exhaustive: one short request, all handler-mode triples x all single disconnect points
     if not quick:
         wire, bodies = mkreq("fixed", b"abc", rng)
@@ -589,6 +678,7 @@ def classify(case, o):
     yield "d=" + cfg["d"]
     yield "f=" + cfg["f"]
     yield "body_timeout=" + str(cfg["bt"])
+    yield "delegate=" + ("callable-server" if cfg.get("callable") else "raw+close-callback" if cfg.get("cb", True) else "raw-no-close-callback")
     yield "chunk=" + ("big" if cfg["chunk"] > 100 else str(cfg["chunk"]))
     for k in ("E", "T", "S"):
         if any(e[0] == k for e in case["events"]):
@@ -616,6 +706,8 @@ def shrink(case):
             yield dict(case, events=evs[:i] + [["F", e[1] + evs[i + 1][1]]] + evs[i + 2:])
     if case["cfg"]["chunk"] != 65536:
         yield dict(case, cfg=dict(case["cfg"], chunk=65536))
+    if case["cfg"].get("callable"):
+        yield dict(case, cfg=dict(case["cfg"], callable=False))
 
 
 LEVEL_TEXT = ("Machine-checked (Coq) invariant proofs over a program-counter model of HTTP1Connection._read_message (need_delegate_close / finally, "
